@@ -37,6 +37,8 @@ FILES = {
     "m.c": (
         '#include "inc.h"\n'
         "#include <unistd.h>\n"
+        "#include <string.h>\n"
+        "void f_term(const char *p) { char buf[10]; strncpy(buf, p, 10); (void)buf[0]; }\n"
         "struct S { int a; };\n"
         "int f_inc(const struct S *s) { int x = 0; if (s) x = s->a; return x; }\n"
         "#ifdef FOO\nint f_foo(int x) { return x / 0; }\n#endif\n"
@@ -149,7 +151,9 @@ def main(tier, seed, replay=None):
         rnd = random.Random(seed)
         pairs = [s for s in seqs if len(s) == 2]
         if tier == "quick":
-            hists = rnd.sample(pairs, 70)
+            # every palette entry is switched on and off against the default once, plus a seeded sample of the other pairs
+            base = [p_ for p_ in pairs if "none" in p_]
+            hists = base + rnd.sample([p_ for p_ in pairs if "none" not in p_], 30)
         else:
             hists = pairs + rnd.sample([s for s in seqs if len(s) == 3], 500)
     all_obs, histories, step_index = [], [], {}
@@ -187,7 +191,7 @@ def main(tier, seed, replay=None):
     cov = {"states": mc_states + tstates, "transitions": mc_states + tstates, "traces_validated_against_impl": nval,
            "evaluations": npairs, "distinct_nontrivial": len(hists),
            "rule": "one evaluation per step of an option history (cached vs fresh run with the same options); histories of distinct palette entries "
-                   "enumerated by TLC (SeqGen); quick = 70 seeded ordered pairs, thorough = all ordered pairs + 500 seeded triples",
+                   "enumerated by TLC (SeqGen); quick = all ordered pairs with the default option set + 30 seeded other pairs, thorough = all ordered pairs + 500 seeded triples",
            "palette": sorted(PALETTE), "palette_effect": {k: sorted(v) for k, v in effect.items()},
            "relation_bad": len(bad), "cache_trace_rejected": len(rejected), "samples": mc_samples + [{"history": hists[0]}, {"history": hists[-1]}]}
     vlib.write_evidence(PID, tier, seed, "model_checking", cov, time.time() - t0, violations=new,
